@@ -46,6 +46,7 @@ theorem const_attribute_codes :
     stunDecAttrXorRelayed = 0x0016 ∧ stunDecAttrErrorCode = 0x0009 ∧ stunDecAttrRealm = stunEncAttrRealm ∧
     stunDecAttrNonce = stunEncAttrNonce ∧ stunDecAttrData = stunEncAttrData ∧
     stunDecAttrLifetime = stunEncAttrLifetime ∧ stunDecAttrUseCandidate = stunEncAttrUseCandidate ∧
+    stunDecAttrPriority = stunEncAttrPriority ∧
     stunEncMiAttrLen = 4 + 20 ∧ stunEncFpAttrLen = 4 + 4 := by decide
 
 /-- RFC 8445 §5.1.2.2 recommended type preferences; local preference 65535 for UDP. The TCP local preferences
@@ -173,7 +174,8 @@ theorem foreign_attribute_readings (tx : Bytes) (d : Decoded) (htx : tx.length =
     (∀ v, attrStep tx d 0x0013 v = { d with data := some v }) ∧
     (∀ v, v < 4294967296 → attrStep tx d 0x000D (be32 v) = { d with lifetime := some v }) ∧
     (∀ v, attrStep tx d 0x0025 v = { d with useCandidate := true }) ∧
-    (∀ t v, t ∉ [0x0020, 0x0012, 0x0016, 0x0009, 0x0014, 0x0015, 0x0013, 0x000D, 0x0025] → attrStep tx d t v = d) :=
+    (∀ v, v < 4294967296 → attrStep tx d 0x0024 (be32 v) = { d with priority := some v }) ∧
+    (∀ t v, t ∉ [0x0020, 0x0012, 0x0016, 0x0009, 0x0014, 0x0015, 0x0013, 0x000D, 0x0025, 0x0024] → attrStep tx d t v = d) :=
   foreign_attr_readings tx d htx
 
 /-- non-vacuity: an Allocate error response 438 with reserved bits set, an unknown attribute with non-zero
@@ -241,6 +243,108 @@ theorem turn_tcp_stream_roundtrip (P : Prims) (m : Msg) (key : Option Bytes) (fp
   have hst := tcpNext_stun m (flat (allTvs P m key fp)) rest hm.tx_len hl
   refine ⟨?_, (tcpNext_channelData ch data rest h1 h2 hd).1, (tcpNext_channelData ch data rest h1 h2 hd).2⟩
   rw [e, hst.1]; exact hst.2
+
+/-- a message on the TURN TCP connection: an encoded STUN message or a ChannelData message -/
+inductive Wire where
+  | stun (m : Msg) (key : Option Bytes) (fp : Bool)
+  | chan (ch : Nat) (data : Bytes)
+
+def Wire.bytes (P : Prims) : Wire → Bytes
+  | .stun m key fp => encode P m key fp
+  | .chan ch data => channelData ch data
+
+def Wire.Ok : Wire → Prop
+  | .stun m _ _ => m.Wf ∧ Sized m
+  | .chan ch data => turnRxChannelLo ≤ ch ∧ ch ≤ turnRxChannelHi ∧ data.length < 65536
+
+/-- **turn_tcp_stream_sequence**: ANY sequence of messages written back to back by `send` (STUN as is,
+ChannelData padded) is split by successive `recv` calls into exactly those messages, in order, leaving
+exactly what followed. -/
+theorem turn_tcp_stream_sequence (P : Prims) (ws : List Wire) (rest : Bytes) (hok : ∀ w ∈ ws, w.Ok) :
+    tcpSplitN ws.length ((ws.map (fun w => tcpWire (w.bytes P))).flatten ++ rest) = some (ws.map (Wire.bytes P), rest) := by
+  induction ws with
+  | nil => rfl
+  | cons w ws ih =>
+    have hw := hok w List.mem_cons_self
+    have ih' := ih (fun w' h' => hok w' (List.mem_cons_of_mem _ h'))
+    simp only [List.length_cons, List.map_cons, List.flatten_cons, List.append_assoc, tcpSplitN]
+    have hnext : tcpNext (tcpWire (w.bytes P) ++ ((ws.map (fun w => tcpWire (w.bytes P))).flatten ++ rest)) =
+        some (w.bytes P, (ws.map (fun w => tcpWire (w.bytes P))).flatten ++ rest) := by
+      cases w with
+      | stun m key fp =>
+        exact (turn_tcp_stream_roundtrip P m key fp turnRxChannelLo [] _ hw.1 hw.2 (Nat.le_refl _) (by decide) (by simp)).1
+      | chan ch data => exact (tcpNext_channelData ch data _ hw.1 hw.2.1 hw.2.2).1
+    simp only [hnext, ih', Option.map_some]
+
+/-- **turn_tcp_recv_buffer**: `recv` with a buffer of `bufLen` bytes agrees with the unbounded stream reader on
+every message whose on-the-wire size fits the buffer, and answers `tooBig` (an error; the runner's 1500-byte
+buffer: a ChannelData message of more than 1496 bytes of data ends the TURN/TCP read loop) otherwise — it never
+reads or writes outside the buffer. -/
+theorem turn_tcp_recv_buffer (bufLen : Nat) (b0 b1 l0 l1 : UInt8) (rest : Bytes) :
+    let body := rd16 l0 l1
+    let onWire := if isChannelByte b0 then 4 + body + pad4 body else 20 + body
+    (onWire ≤ bufLen → ∀ m r, tcpNext (b0 :: b1 :: l0 :: l1 :: rest) = some (m, r) →
+        tcpRecv bufLen (b0 :: b1 :: l0 :: l1 :: rest) = .msg m r) ∧
+    (bufLen < onWire → tcpRecv bufLen (b0 :: b1 :: l0 :: l1 :: rest) = .tooBig) ∧
+    (∀ m r, tcpRecv bufLen (b0 :: b1 :: l0 :: l1 :: rest) = .msg m r → m.length ≤ bufLen) := by
+  have hpad : ∀ n : Nat, (n + 3) / 4 * 4 = n + pad4 n := by intro n; unfold pad4; omega
+  refine ⟨?_, ?_, ?_⟩
+  · intro hfit m r hn
+    simp only [tcpNext] at hn
+    simp only [tcpRecv]
+    by_cases hc : isChannelByte b0 = true
+    · simp only [hc, ↓reduceIte] at hn hfit ⊢
+      rw [hpad]
+      split at hn
+      · cases hn
+      · rename_i hlen
+        simp only [Option.some.injEq, Prod.mk.injEq] at hn
+        have h1 : ¬ (4 + (rd16 l0 l1 + pad4 (rd16 l0 l1)) > bufLen) := by omega
+        have h2 : ¬ (rest.length < 4 + (rd16 l0 l1 + pad4 (rd16 l0 l1)) - 4) := by omega
+        simp only [h1, h2, ↓reduceIte, Recv.msg.injEq]
+        refine ⟨?_, ?_⟩
+        · rw [← hn.1]; congr 5; omega
+        · rw [← hn.2]; congr 1; omega
+    · simp only [hc, Bool.false_eq_true, ↓reduceIte] at hn hfit ⊢
+      split at hn
+      · cases hn
+      · rename_i hlen
+        simp only [Option.some.injEq, Prod.mk.injEq] at hn
+        have h1 : ¬ (20 + rd16 l0 l1 > bufLen) := by omega
+        have h2 : ¬ (rest.length < 20 + rd16 l0 l1 - 4) := by omega
+        simp only [h1, h2, ↓reduceIte, Recv.msg.injEq]
+        refine ⟨?_, ?_⟩
+        · rw [← hn.1]; congr 5; omega
+        · rw [← hn.2]; congr 1; omega
+  · intro hbig
+    simp only [tcpRecv]
+    by_cases hc : isChannelByte b0 = true
+    · simp only [hc, ↓reduceIte] at hbig ⊢
+      rw [hpad]
+      have : 4 + (rd16 l0 l1 + pad4 (rd16 l0 l1)) > bufLen := by omega
+      simp [this]
+    · simp only [hc, Bool.false_eq_true, ↓reduceIte] at hbig ⊢
+      simp [hbig]
+  · intro m r hm
+    simp only [tcpRecv] at hm
+    by_cases hc : isChannelByte b0 = true
+    · simp only [hc, ↓reduceIte] at hm
+      rw [hpad] at hm
+      by_cases h1 : 4 + (rd16 l0 l1 + pad4 (rd16 l0 l1)) > bufLen
+      · simp [h1] at hm
+      · simp only [h1, ↓reduceIte] at hm
+        split at hm
+        · cases hm
+        · simp only [Recv.msg.injEq] at hm
+          rw [← hm.1]; simp only [List.length_cons, List.length_take]; omega
+    · simp only [hc, Bool.false_eq_true, ↓reduceIte] at hm
+      by_cases h1 : 20 + rd16 l0 l1 > bufLen
+      · simp [h1] at hm
+      · simp only [h1, ↓reduceIte] at hm
+        split at hm
+        · cases hm
+        · simp only [Recv.msg.injEq] at hm
+          rw [← hm.1]; simp only [List.length_cons, List.length_take]; omega
 
 /-- every channel number `create_channel_bind_packet` ever allocates stays in the TURN range (it starts
 at 0x4000, wraps from 0x7FFF to 0x4000), hence its ChannelData frames are always recognised. -/
@@ -465,6 +569,80 @@ theorem pair_order_tie_witness :
       IcePairs.checkOrder .controlling false [h 1, h 2] [h 3, h 4] := by
   decide
 
+/-- **selected_pair_has_highest_priority**: the pair the agent USES (the part of
+`perform_connectivity_checks_async` after the checks: `successful_pairs.sort_by_key(Reverse(priority))`, `[0]`,
+`successful_nominations.sort_by_key(..)`, `.first()`), for any arrival order of the results:
+the controlling agent ends with the highest-priority pair among the nominations that succeeded
+(nomination complete, Connected), or — when no nomination succeeded — with the highest-priority pair among the
+checks that succeeded (nomination failed, Failed); the controlled agent's provisional pair is the
+highest-priority pair among its successful checks, and nothing is touched once the peer has nominated. -/
+theorem selected_pair_has_highest_priority (role : Role) (succ noms : List IcePairs.PPair) (peerNominated : Bool)
+    (o : IcePairs.Outcome) (h : IcePairs.conclude role succ noms peerNominated = some o) :
+    (role = .controlling → noms ≠ [] →
+      o.selected ∈ noms ∧ (∀ q ∈ noms, IcePairs.prio role q ≤ IcePairs.prio role o.selected) ∧
+      o.nominationComplete = some true ∧ o.connected = true) ∧
+    (role = .controlling → noms = [] →
+      o.selected ∈ succ ∧ (∀ q ∈ succ, IcePairs.prio role q ≤ IcePairs.prio role o.selected) ∧
+      o.nominationComplete = some false ∧ o.connected = false) ∧
+    (role = .controlled →
+      peerNominated = false ∧ o.selected ∈ succ ∧ (∀ q ∈ succ, IcePairs.prio role q ≤ IcePairs.prio role o.selected) ∧
+      o.connected = true) := by
+  unfold IcePairs.conclude at h
+  cases hb : IcePairs.best role succ with
+  | none => rw [hb] at h; simp at h
+  | some top =>
+    rw [hb] at h
+    have ht := IcePairs.best_some role succ top hb
+    cases role with
+    | controlling =>
+      simp only at h
+      cases hn : IcePairs.best .controlling noms with
+      | none =>
+        rw [hn] at h
+        have hnil := (IcePairs.best_none _ _).mp hn
+        simp only [Option.some.injEq] at h; subst h
+        exact ⟨fun _ hne => absurd hnil hne, fun _ _ => ⟨ht.1, ht.2, rfl, rfl⟩, fun hc => by cases hc⟩
+      | some f =>
+        rw [hn] at h
+        have hf := IcePairs.best_some _ noms f hn
+        simp only [Option.some.injEq] at h; subst h
+        refine ⟨fun _ _ => ⟨hf.1, hf.2, rfl, rfl⟩, fun _ hnil => ?_, fun hc => by cases hc⟩
+        rw [hnil] at hf; simp at hf
+    | controlled =>
+      simp only at h
+      cases peerNominated with
+      | true => simp at h
+      | false =>
+        simp only [Bool.false_eq_true, ↓reduceIte, Option.some.injEq] at h; subst h
+        exact ⟨fun hc => (by cases hc), fun hc => (by cases hc), fun _ => ⟨rfl, ht.1, ht.2, rfl⟩⟩
+
+/-- **both_agents_use_same_pair**: if the same checks succeeded on both sides (B's successful pairs are A's,
+swapped) and distinct pairs have distinct pair priorities, the controlled agent's provisional pair is the
+controlling agent's highest-priority successful pair — whatever the arrival orders. The priority hypothesis is
+about the numbers each agent HOLDS for the same candidates being equal (see
+`peer_reflexive_priority_from_request`) and distinct (see `pair_order_tie_witness`). -/
+theorem both_agents_use_same_pair (succ : List IcePairs.PPair)
+    (hd : ∀ p ∈ succ, ∀ q ∈ succ, p ≠ q → IcePairs.prio .controlling p ≠ IcePairs.prio .controlling q) :
+    IcePairs.best .controlled (succ.map Prod.swap) = (IcePairs.best .controlling succ).map Prod.swap := by
+  cases hb : IcePairs.best .controlling succ with
+  | none => rw [(IcePairs.best_none _ _).mp hb]; rfl
+  | some p =>
+    obtain ⟨hp, hmax⟩ := IcePairs.best_some _ _ _ hb
+    simp only [Option.map_some]
+    apply IcePairs.best_unique
+    · exact List.mem_map.mpr ⟨p, hp, rfl⟩
+    · intro q' hq' hne
+      obtain ⟨q, hq, rfl⟩ := List.mem_map.mp hq'
+      have hqp : q ≠ p := fun e => hne (by rw [e])
+      have e1 : IcePairs.prio .controlled (Prod.swap q) = IcePairs.prio .controlling q := by
+        rw [← IcePairs.prio_swap]; simp
+      have e2 : IcePairs.prio .controlled (Prod.swap p) = IcePairs.prio .controlling p := by
+        rw [← IcePairs.prio_swap]; simp
+      rw [e1, e2]
+      have := hmax q hq
+      have := hd q hq p hp hqp
+      omega
+
 /-- **connectivity_check_accepted_by_peer**: the connectivity check / nomination request the agent composes
 (`perform_binding_check`: SOFTWARE, USERNAME `remote:local`, PRIORITY, ICE-CONTROLLING or ICE-CONTROLLED, optional
 USE-CANDIDATE; MESSAGE-INTEGRITY under the REMOTE password; FINGERPRINT) passes the credential check of a
@@ -483,6 +661,33 @@ theorem connectivity_check_accepted_by_peer (P : Prims) (tx lu ru rpwd : Bytes) 
     cases role <;> cases nom <;> simp [IcePairs.connectivityCheck, IcePairs.software] at ha <;>
       rcases ha with rfl | rfl | rfl | rfl | rfl <;> trivial
   exact IceAuth.codeAuth_complete P ru rpwd lu _ true [IcePairs.software] _ hattrs (by decide) hcolon hutf hwf hs
+
+/-- **peer_reflexive_priority_from_request** (RFC 8445 §7.3.1.3, holds since the `fix:` commit; before, the
+decoder did not expose PRIORITY and the learnt candidate got `priority_for(PeerReflexive, 1)`): decoding the
+connectivity check a peer composes for a local candidate of priority `prio` yields `priority = some prio`, the
+peer-reflexive candidate learnt from it carries exactly `prio`, and so the receiver (local priority `q`)
+computes for the pair the very number the sender computes — the presupposition of the same-ordering clause
+("swapped local/remote priorities") holds for peer-reflexive candidates too. -/
+theorem peer_reflexive_priority_from_request (P : Prims) (tx lu ru rpwd : Bytes) (role : Role) (prio tie q : Nat) (nom : Bool)
+    (sock : IceAuth.Sock) (src : Addr)
+    (htx : tx.length = 12) (hp : prio < 4294967296) (hs : Sized (IcePairs.connectivityCheck tx lu ru role prio tie nom)) :
+    ∃ d, decode (encode P (IcePairs.connectivityCheck tx lu ru role prio tie nom) (some rpwd) true) = .ok d ∧
+      d.priority = some prio ∧ (IceAuth.prflxCand sock src d.priority).priority = prio ∧
+      pairPriority .controlled q (IceAuth.prflxCand sock src d.priority).priority = pairPriority .controlling prio q ∧
+      pairPriority .controlling q (IceAuth.prflxCand sock src d.priority).priority = pairPriority .controlled prio q := by
+  have hok : ∀ a ∈ (IcePairs.connectivityCheck tx lu ru role prio tie nom).attrs, a.Ok := by
+    intro a ha
+    cases role <;> cases nom <;> simp [IcePairs.connectivityCheck, IcePairs.software] at ha <;>
+      rcases ha with rfl | rfl | rfl | rfl | rfl <;> first | trivial | exact hp
+  have hd := stun_decode_encode P _ (some rpwd) true (by exact htx) hok hs
+  refine ⟨_, hd, ?_⟩
+  have hpr : ((IcePairs.connectivityCheck tx lu ru role prio tie nom).attrs.foldl applyAttr
+      (emptyDecoded (IcePairs.connectivityCheck tx lu ru role prio tie nom).cls
+        (IcePairs.connectivityCheck tx lu ru role prio tie nom).method
+        (IcePairs.connectivityCheck tx lu ru role prio tie nom).tx)).priority = some prio := by
+    cases role <;> cases nom <;> simp [IcePairs.connectivityCheck, IcePairs.software, applyAttr, emptyDecoded]
+  rw [hpr]
+  refine ⟨rfl, rfl, ?_, ?_⟩ <;> simp [IceAuth.prflxCand, pairPriority]
 
 /-! ### candidate lines (`to_sdp` / `from_sdp`)
 
@@ -574,6 +779,15 @@ literal is accepted and the host keeps its brackets. -/
 theorem ice_server_uri_ipv6_literal_witness :
     IceUri.parse "stun:[2001:db8::1]".toList = .error .port ∧
     IceUri.parse "stun:[2001:db8::1]:3478".toList = .ok ⟨.stun, "[2001:db8::1]".toList, 3478, .udp⟩ := by
+  constructor <;> simp [IceUri.parse, IceUri.splitOnce, IceUri.splitQuery, IceUri.hostPort, IceUri.rsplitOnce, parseUInt, parseDigits,
+    digitVal, IceUri.defaultPort, IceUri.defaultTransport, IceUri.queryTransport, IceUri.finish, IceUri.containsSub]
+
+/-- RFC 7064 §3.1 requires a host (`ice_server_uri_parse` therefore assumes `host ≠ []`); the code does not:
+`stun:` and `turn:` parse to a server with the EMPTY host name (the failure surfaces only when the
+name is resolved). Recorded deviation, not repaired (the property statement does not mention URIs). -/
+theorem ice_server_uri_empty_host_witness :
+    IceUri.parse "stun:".toList = .ok ⟨.stun, [], 3478, .udp⟩ ∧
+    IceUri.parse "turn:".toList = .ok ⟨.turn, [], 3478, .udp⟩ := by
   constructor <;> simp [IceUri.parse, IceUri.splitOnce, IceUri.splitQuery, IceUri.hostPort, IceUri.rsplitOnce, parseUInt, parseDigits,
     digitVal, IceUri.defaultPort, IceUri.defaultTransport, IceUri.queryTransport, IceUri.finish, IceUri.containsSub]
 
